@@ -90,6 +90,17 @@ def run(P, R):
             [ast.unparse(a) for a in rf[0].args] == ([reset] if reset else []) and rf[0].lineno < us[0].lineno
         R.check(r2, ok, '%s dismisses a forced state on new information' % q, 'resynth|%s|reset' % q, u.loc(),
                 '%s does not always call reset_forced_state(%s) before the synthesis' % (q, reset or ''))
+    for q in ('ProcessStatus.add_info', 'ProcessStatus.update_info'):
+        u = P.unit(q)
+        fmq = factmap(u)
+        lm = [a for a in own_nodes(u.node) if isinstance(a, ast.Assign) and ast.unparse(a.targets[0]) == "info['local_mtime']"]
+        le = [a for a in own_nodes(u.node) if isinstance(a, ast.Assign) and ast.unparse(a.targets[0]) == 'self.last_event_mtime']
+        ok = len(lm) == 1 and len(le) == 1 and not fmq.at(lm[0]) and not fmq.at(le[0]) and \
+            ast.unparse(le[0].value) == 'time.monotonic()' and ast.unparse(lm[0].value) == 'self.last_event_mtime'
+        R.check(r2, ok, '%s stamps the entry with its local reception time, whatever the origin of the report' % q,
+                'resynth|%s|local_mtime' % q, u.loc(), '%s does not unconditionally stamp info[local_mtime] with the '
+                'reception time: "most recently received" no longer holds for that report (e.g. the FATAL of an '
+                'instance loss)' % q)
     u = P.unit('ProcessStatus.update_info')
     ns = [a for a in own_nodes(u.node) if isinstance(a, ast.Assign) and ast.unparse(a.targets[0]) == 'new_state']
     up = [c for c in own_nodes(u.node) if isinstance(c, ast.Call) and call_text(c) == 'info.update']
